@@ -493,6 +493,11 @@ func (self ValueInstruction) String() string {
 		str = "\"" + str + "\""
 	}
 
+	// The disassembly names the function (its `Display` does not).
+	if fn, isFn := self.Value.(value.ValueVMFunction); isFn {
+		str = fmt.Sprintf("<vm-runtime-function (%s)>", fn.Ident)
+	}
+
 	str = strings.ReplaceAll(strings.ReplaceAll(str, "\n    ", ""), "\n", "")
 	return fmt.Sprintf("%v(%s)", self.Opcode(), str)
 }
